@@ -669,7 +669,7 @@ IS_DIGIT = "std::char::methods::<impl char>::is_digit"
 CHARS = "core::str::<impl str>::chars"
 ITER_ALL = re.compile(r"Iterator(>)?::(all|any)$")
 ITER_NEXT = re.compile(r"Iterator(>)?::next$")
-LOSSLESS_F64 = re.compile(r"^<f64 as std::convert::From<(u8|u16|u32|i8|i16|i32|f32)>>::from$")
+LOSSLESS_F64 = re.compile(r"^(<f64 as std::convert::From<(u8|u16|u32|i8|i16|i32|f32)>>::from|std::convert::num::<impl std::convert::From<(u8|u16|u32|i8|i16|i32|f32)> for f64>::from)$")
 INTO_ITER = re.compile(r"(IntoIterator>::into_iter|Iterator(>)?::by_ref)$")
 ACC, ELEM = ("acc",), ("elem",)
 
@@ -892,8 +892,10 @@ class _RadixReader:
                 for u, v in ((p_, q_), (q_, p_)):
                     if u == ("arg", self.sa) and v[0] == "const" and const_value(v[1]) == "":
                         return ("empty", val if m.group(1) == "eq" else not val)
-            if re.search(r"Iterator(>)?::all$", pth) and len(x[2]) == 2 and self.chars_of_digits(x[2][0]) is True:
-                return ("alldigits", val, key)
+            m2 = re.search(r"Iterator(>)?::(all|any)$", pth)
+            if m2 and len(x[2]) == 2 and self.chars_of_digits(x[2][0]) is True:
+                # all(is a digit) — or its De Morgan dual: not any(is not a digit); the predicate is judged by all_digits_test
+                return ("alldigits", val if m2.group(2) == "all" else not val, key)
             return ("digits?",) if self.mentions_digits(x) else None
         if key[0] == "variant":
             y = x
@@ -906,7 +908,8 @@ class _RadixReader:
         return ("digits?",) if self.mentions_digits(x) else None
 
     def all_digits_test(self, key, ex):
-        """.radix-digit-test for one `chars(digits).all(pred)` atom: pred is char::is_digit(c, radix)."""
+        """.radix-digit-test for one `chars(digits).all(pred)` atom: pred is char::is_digit(c, radix)
+        (`chars(digits).any(pred)`: pred is its negation)."""
         x = strip_refs(ex)
         clos = strip_refs(x[2][1])
         inst = "every character of the digits must be a digit of the radix (char::is_digit(c, radix)) (%s)" % self.cfg
@@ -927,11 +930,18 @@ class _RadixReader:
             for _k, _val, kex in conds:
                 expr_mentions(kex, find)
         wrong = [y for y in calls if not (strip_refs(y[2][0]) == ELEM and self.is_radix(y[2][1]))]
-        exact = len(cc) == 1 and not cc[0][0] and strip_refs(cc[0][1])[0] == "call" and strip_refs(cc[0][1]) in [strip_refs(y) for y in calls]
+        is_any = (x[1].get("path") or "").endswith("any")
+        v0 = strip_refs(cc[0][1]) if len(cc) == 1 and not cc[0][0] else ()
+        negated = False
+        while v0 and v0[0] == "unop" and v0[1] == "Not":
+            negated, v0 = not negated, strip_refs(v0[2])
+        single = bool(v0) and v0[0] == "call" and v0 in [strip_refs(y) for y in calls]
         if wrong:
             self.note(".radix-digit-test", inst, "viol", shown + ": it asks %s" % "; ".join(_show(y, 80) for y in wrong[:2]), where)
-        elif exact:
+        elif single and negated == is_any:
             self.note(".radix-digit-test", inst, "ok")
+        elif single:
+            self.note(".radix-digit-test", inst, "viol", shown + ": %s" % ("it asks whether some character is a digit of the radix" if is_any else "it asks whether every character is not a digit of the radix"), where)
         else:
             self.note(".radix-digit-test", inst, "unread", "the predicate of the all-digits test is not the single question char::is_digit(c, radix) (%s)" % shown, where)
 
